@@ -3,7 +3,9 @@ use full_moon::{
     visitors::Visitor,
 };
 
-use crate::ast_util::{expression_to_ident, range, scopes::AssignedValue, strip_parentheses};
+use crate::ast_util::{
+    expression_to_ident, purge_trivia, range, scopes::AssignedValue, strip_parentheses,
+};
 
 use super::*;
 use std::{collections::HashSet, convert::Infallible};
@@ -385,7 +387,7 @@ impl Visitor for ManualTableCloneVisitor<'_> {
                 (*definition_start, position_end)
             },
             assigning_into: assigning_into.token().to_string(),
-            looping_over: looping_over.to_string(),
+            looping_over: purge_trivia(looping_over).to_string(),
             replaces_definition_range: if only_use_loop_range {
                 Some((*definition_start, *definition_end))
             } else {
